@@ -42,7 +42,7 @@ static Case decode(tape_t const& tape)
     Tape t(tape);
     Case c;
     c.cfg = decode_config(t, {S_CV_WAIT, S_DO_YIELD, S_SL_AFTER_RUN, S_STS_BEFORE_CAS, S_STS_BEFORE_SCHEDULE, S_STS_ENTRY, S_SET_ACTIVE_STATE,
-                                 S_STS_ACTIVE_HELPER, S_CV_NOTIFY_ONE, S_CV_NOTIFY_ALL, S_SEM_SIGNAL, S_SEM_WAIT, S_LATCH_NOTIFY, S_MUTEX_UNLOCK});
+                                 S_STS_ACTIVE_HELPER, S_CV_NOTIFY_ONE, S_CV_NOTIFY_ALL, S_SEM_SIGNAL, S_SEM_WAIT, S_SEM_SIGNAL_RELOCK, S_SEM_SIGNAL_RELOCK, S_LATCH_NOTIFY, S_MUTEX_UNLOCK});
     c.cfg.workers = t.weighted({4, 4, 2, 2, 1, 1, 1, 1}) + 1;
     int n = t.weighted({5, 3, 1}) + 1;
     for (int i = 0; i < n; ++i)
